@@ -94,3 +94,23 @@ pub assume_specification[ i32::saturating_add ](x: i32, y: i32) -> (r: i32)
     ensures
         r as int == (if x as int + y as int > i32::MAX as int { i32::MAX as int } else if (x as int + y as int) < i32::MIN as int { i32::MIN as int } else { x as int + y as int }),
 ;
+
+pub assume_specification[ i32::wrapping_abs ](x: i32) -> (r: i32)
+    ensures
+        r as int == (if x == i32::MIN { i32::MIN as int } else if x < 0 { -(x as int) } else { x as int }),
+;
+
+pub assume_specification[ i64::wrapping_abs ](x: i64) -> (r: i64)
+    ensures
+        r as int == (if x == i64::MIN { i64::MIN as int } else if x < 0 { -(x as int) } else { x as int }),
+;
+
+pub assume_specification[ i32::unsigned_abs ](x: i32) -> (r: u32)
+    ensures
+        r as int == (if x < 0 { -(x as int) } else { x as int }),
+;
+
+pub assume_specification[ i64::unsigned_abs ](x: i64) -> (r: u64)
+    ensures
+        r as int == (if x < 0 { -(x as int) } else { x as int }),
+;
